@@ -12,7 +12,7 @@ var Base = time.Date(2024, 1, 1, 0, 0, 0, 0, time.UTC)
 
 // Now mirrors time.Now.
 func Now() time.Time {
-	vrt.ShimOps++
+	vrt.CountShim()
 	if vrt.Active() || vrt.S != nil {
 		return Base.Add(time.Duration(vrt.S.Now))
 	}
